@@ -1,4 +1,5 @@
 import Fv.Lemmas.CacheAccounting
+import Fv.Lemmas.CacheWF
 import Fv.Cache.Policy.Lru
 /-
 C13 — capacity is enforced and cost accounting matches residency.
@@ -234,6 +235,26 @@ example : WF capDemo ∧ Fv.Cache.Acc capDemo ∧ costSum capDemo < U64 ∧ CapH
 /-- … and the pass does bring it back under the capacity -/
 example : (capDemo.cleanupCapacity cfgLru5 lruOps o0 0).met.currentCost = 3 ∧
     residentCost (capDemo.cleanupCapacity cfgLru5 lruOps o0 0) = 3 := by decide
+
+/-! ### well-formedness needs no hypothesis at all -/
+
+/-- the `WF` half of the invariant is preserved by EVERY call, `run_maintenance` included,
+    whatever the policy reports and whether or not the accounting is exact (F8c does not break it) -/
+theorem C13_WF_step (cfg : Cfg) (ops : PolicyOps P) (p0 : P) (o : Oracle) (s : State P) (op : Op) (hwf : WF s) :
+    WF (stepOp cfg ops p0 o s op).1 := Fv.Cache.WF_step cfg ops p0 o s op hwf
+
+/-- the keys of the map (and of the stored snapshot) are distinct after ANY history of a fresh cache -/
+theorem C13_WF_run (cfg : Cfg) (ops : PolicyOps P) (p0 : P) (t0 : Nat) (hist : List (Op × Oracle)) :
+    WF (run cfg ops p0 (State.fresh cfg p0 t0) hist).1 := Fv.Cache.WF_run cfg ops p0 t0 hist
+
+/-- every reachable state (the state after some history, hence after every prefix) is well-formed -/
+theorem C13_WF_reachable (cfg : Cfg) (ops : PolicyOps P) (p0 : P) (t0 : Nat) (s : State P)
+    (h : Reachable cfg ops p0 t0 s) : WF s := Fv.Cache.WF_reachable h
+
+-- non-vacuity: the F8c run (inexact accounting) is reachable, hence well-formed
+example : Reachable cfgLru5 lruOps Lru.init 0
+    (run cfgLru5 lruOps Lru.init (State.fresh cfgLru5 Lru.init 0)
+      [(.insert false 1 101 3, {}), (.remove 1, {}), (.runMaintenance, {})]).1 := ⟨_, rfl⟩
 
 /-! ### witnesses: the full statements are false on the model (as on the code) -/
 
